@@ -183,3 +183,8 @@ func Shared(ptr any, name string) {}
 // SharedMap marks a Go map as shared between goroutines: every access to it becomes a schedule
 // point under the engine's scheduler (check-then-insert sequences interleave). No effect natively.
 func SharedMap(m any) {}
+
+// SoftOpaque(true): from now on a path that would have to inspect the text of a formatted
+// symbolic number (which the engine does not encode) ends benignly instead of being counted
+// inconclusive. Used only where the remaining obligation is "no Go panic".
+func SoftOpaque(on bool) {}
